@@ -10,6 +10,7 @@ tables, re-extracted from /repo on every run into lean/YashModel/Generated/Quote
   (is_token_delimiter_char must be `is_operator_char(c) || is_blank(c)`)   lex/token.rs
   dqEscapable                                         yash-syntax/src/parser/lex/word.rs   fn double_quote / is_escapable
   specialParamChars                                   yash-syntax/src/syntax/conversions.rs SpecialParam::from_char
+  separatorPrefixes                                   yash-builtin/src/typeset/print_variables.rs print_one (`name.starts_with(..)`)
   whitespaceRanges                                    Rust std `char::is_whitespace` (Unicode White_Space); std is not
                                                       part of /repo, so this is a constant here, compared with the
                                                       real `char::is_whitespace` over code points by harness c07 (`c` leg).
@@ -147,6 +148,18 @@ def quote_tables(T):
     if not special:
         T.fail("SpecialParam::from_char: no arms found")
 
+    # --- print_variables.rs: which first characters of a name get the `-- ` separator
+    pv = strip_comments(T.read("yash-builtin/src/typeset/print_variables.rs"))
+    m = re.search(r'let separator = if name\.starts_with\(([^)]*)\) \{ "-- " \} else \{ "" \};', pv)
+    if not m:
+        T.fail("print_variables.rs print_one: `separator` is no longer decided by `name.starts_with(<chars>)`")
+    sep_chars = chars_of(T, m.group(1))
+    shape = re.sub(r"\s+", "", m.group(1))
+    want1 = "'" + sep_chars[0] + "'" if len(sep_chars) == 1 else None
+    wantn = "[" + ",".join("'" + c + "'" for c in sep_chars) + "]"
+    if not sep_chars or shape not in (want1, wantn):
+        T.fail(f"print_variables.rs print_one: unexpected starts_with argument `{m.group(1)}`")
+
     ranges = ", ".join(f"({a}, {b})" for a, b in WHITE_SPACE)
     infix_l = "[" + ", ".join(lean_chars(T, list(s)) for s in infix) + "]"
     pairs_l = "[" + ", ".join(f"({T.lean_char(a)}, {T.lean_char(b)})" for a, b in pairs) + "]"
@@ -172,6 +185,8 @@ def blankExcluded : List Char := {lean_chars(T, blank_excluded)}
 def dqEscapable : List Char := {lean_chars(T, dq_escapable)}
 /-- yash-syntax `SpecialParam::from_char` -/
 def specialParamChars : List Char := {lean_chars(T, special)}
+/-- yash-builtin `print_variables.rs` `print_one`: first characters of a name before which `-- ` is printed -/
+def separatorPrefixes : List Char := {lean_chars(T, sep_chars)}
 /-- Rust `char::is_whitespace` (Unicode White_Space) as inclusive code point ranges; checked against the
     real function by harness `c07` -/
 def whitespaceRanges : List (Nat × Nat) := [{ranges}]
